@@ -175,7 +175,8 @@ impl fmt::Display for CompoundVariable {
                     Primitive::String(s) if is_underscore_literal(s) => s.clone(),
                     _ => format!("{{{}}}", i),
                 },
-                PreExp::Variable(name) => name.value().clone(),
+                //a name that begins with an underscore would be read back as a literal name fragment
+                PreExp::Variable(name) if !name.value().starts_with('_') => name.value().clone(),
                 _ => format!("{{{}}}", i),
             })
             .collect::<Vec<String>>();
